@@ -13,6 +13,15 @@ CHECKS = {
         note="z3 decides integer polynomial identities mod r; trusted: primality of r, the "
              "symbolic dispatch of the vendored dependency copy (validated differentially each run), specs in py/spec",
         tech="symbolic execution of the real Rust code on a term-recording field + SMT (z3, Int mod r)"),
+    "C08": dict(
+        cat="other", ref="§5 C08",
+        text="Bounded solver verdict: each component is executed by the real composer on symbolic witnesses and "
+             "symbolic selector coefficients (all branches on symbolic values explored); z3 shows emitted row == "
+             "documented relation, computed witnesses satisfy the rows, rows imply the documented result, and "
+             "returned witnesses are unique -- for ALL field values.",
+        note="finite list of wire-sharing patterns (quick 5, thorough all 15); integral-domain rewriting; "
+             "row semantics from the real arithmetic widget",
+        tech="symbolic execution of the real composer with path exploration + SMT (z3)"),
     "C09": dict(
         cat="other", ref="§5 C09",
         text="Bounded solver verdict per width: gates extracted from the real component_range_bits / "
